@@ -110,6 +110,7 @@ class C01(Check):
                 {**base, 'behaviours': {'ret': {'kind': 'return', 'value': {'$py': 'mixed-keys'}}}, 'text': t([{'jsonrpc': '2.0', 'id': 1, 'method': 'ret'}, {'jsonrpc': '2.0', 'id': 2, 'method': 'ret'}])},
                 {**base, 'behaviours': {'ret': {'kind': 'return', 'value': {'$py': 'odd-keys'}}}, 'text': t({'jsonrpc': '2.0', 'id': 1, 'method': 'ret'})},
                 {**base, 'behaviours': {'ret': {'kind': 'return', 'value': {'$py': 'tuple'}}}, 'codec': 'functions', 'text': t({'jsonrpc': '2.0', 'id': 1, 'method': 'ret'})},
+                {**base, 'behaviours': {'rpc_err': {'kind': 'raise_rpc', 'error': {'cls': 'QuotaError', 'code': None, 'message': None, 'data': {'value': {'limit': 3}}}}}, 'text': t([{'jsonrpc': '2.0', 'id': 1, 'method': 'rpc_err'}, {'jsonrpc': '2.0', 'method': 'rpc_err'}])},
                 {**base, 'text': {'raw': ''}},
                 {**base, 'text': {'raw': '[]'}},
                 {**base, 'text': t([1])},
